@@ -381,7 +381,7 @@ func genC20(g *Gen) {
 		for _, how := range []string{"SetAsArray", "NewVariant"} {
 			ops = append(ops, Ev{"op": "fromlist", "v": v, "list": "L1", "how": how})
 		}
-		ops = append(ops, Ev{"op": "setbyindex", "v": v, "i": 0, "e": "e3"}, Ev{"op": "setbyindex", "v": v, "i": 3, "e": "e4"},
+		ops = append(ops, Ev{"op": "setbyindex", "v": v, "i": 0, "e": "e3"}, Ev{"op": "setbyindex", "v": v, "i": 3, "e": "e4"}, Ev{"op": "setbyindex", "v": v, "i": 5, "e": "e5"},
 			Ev{"op": "setlength", "v": v, "n": 3}, Ev{"op": "clear", "v": v}, Ev{"op": "setscalar", "v": v, "type": "Integer", "payload": "7"})
 	}
 	for _, how := range []string{"Clone", "Assign", "SetAsObject", "NewVariant"} {
